@@ -95,6 +95,9 @@ pub fn run(mut config: Config) -> ::anyhow::Result<()> {
             let mut counter = 0usize;
 
             loop {
+                #[cfg(feature = "verif")]
+                aquatic_common::verif_fault!("udp.cleaning.loop");
+
                 sleep(Duration::from_secs(
                     config.cleaning.torrent_cleaning_interval,
                 ));
@@ -167,9 +170,15 @@ pub fn run(mut config: Config) -> ::anyhow::Result<()> {
         let handle: JoinHandle<anyhow::Result<()>> = Builder::new()
             .name("signals".into())
             .spawn(move || {
+                #[cfg(feature = "verif")]
+                aquatic_common::verif_fault!("udp.signals.start");
+
                 for signal in &mut signals {
                     match signal {
                         SIGUSR1 => {
+                            #[cfg(feature = "verif")]
+                            aquatic_common::verif_fault!("udp.signals.signal");
+
                             let _ = update_access_list(&config.access_list, &state.access_list);
                         }
                         _ => unreachable!(),
